@@ -11,6 +11,84 @@ use crate::satcase::*;
 use crate::target::{search_target, Target};
 use crate::world::{hex, World};
 
+/// The PSBT finalizer is a satisfier whose assets are the PSBT's fields. With every signature and
+/// every preimage of an input present it has to finalize whenever the library's own satisfier,
+/// handed the same signatures directly, produces a witness that real execution accepts.
+fn psbt_flow(cfg: &RunCfg, rep: &mut Report, world: &World, i: u64) {
+    use super::c14::{apply, build_setup, fresh_psbt, Op, Outcome};
+    use crate::refvm::verify::verify_input;
+    use crate::refvm::vm::TxCtx;
+    use crate::world::{Assets, Spend};
+    use miniscript::psbt::PsbtExt;
+    let mut rng = cfg.case_rng(i ^ 0x5bd1_e995);
+    let s = match build_setup(&mut rng, world, cfg.tier) {
+        Some(s) => s,
+        None => return,
+    };
+    let mut psbt = fresh_psbt(&s);
+    let n = s.inputs.len();
+    for k in 0..n {
+        if !matches!(apply(world, &s, &mut psbt, &Op::Update(k)), Outcome::Ok) {
+            rep.count("psbt: update refused");
+            return;
+        }
+        for id in s.inputs[k].case.key_ids() {
+            apply(world, &s, &mut psbt, &Op::AddSig(k, id));
+        }
+        for p in s.inputs[k].case.pre_ids() {
+            apply(world, &s, &mut psbt, &Op::AddPre(k, p));
+        }
+    }
+    for k in 0..n {
+        let ip = &s.inputs[k];
+        let spend = Spend { tx: s.tx.clone(), prevouts: s.prevouts.clone(), idx: k };
+        let mut assets = Assets::new(world, &spend, ip.target.ecdsa.clone());
+        assets.keys.extend(ip.case.key_ids());
+        assets.pre.extend(ip.case.pre_ids());
+        for mall in [true, false] {
+            let direct = guarded(std::panic::AssertUnwindSafe(|| {
+                let sat = satisfier(&assets, &ip.target);
+                if mall {
+                    ip.desc.get_satisfaction_mall(&sat)
+                } else {
+                    ip.desc.get_satisfaction(&sat)
+                }
+            }));
+            let (w, ss) = match direct {
+                Ok(Ok(x)) => x,
+                _ => {
+                    rep.count("psbt: the direct satisfier refuses too (locks unmet)");
+                    continue;
+                }
+            };
+            let txc = TxCtx { tx: &s.tx, idx: k, prevouts: &s.prevouts };
+            if verify_input(&ip.target.spk, ss.as_bytes(), &w, &txc, Flags::STANDARD, &world.secp).is_err() {
+                rep.count("psbt: direct witness not valid (C01's business)");
+                continue;
+            }
+            rep.eval();
+            let mut c = psbt.clone();
+            let r = guarded(std::panic::AssertUnwindSafe(|| if mall { c.finalize_inp_mall_mut(&world.secp, k).map_err(|e| e.to_string()) } else { c.finalize_inp_mut(&world.secp, k).map_err(|e| e.to_string()) }));
+            match r {
+                Ok(Ok(())) => {
+                    rep.count("psbt: finalizer finds a satisfaction where the direct satisfier does");
+                    rep.nontrivial(&format!("psbt|{}|{}|{}", ip.case.desc, mall, s.tx.lock_time));
+                }
+                Ok(Err(e)) => rep.violation(
+                    i,
+                    format!("C02:refused-but-satisfiable:finalize_inp{}:{:?}", if mall { "_mall" } else { "" }, ip.case.kind),
+                    format!(
+                        "input {} = {} carries every signature and preimage; get_satisfaction{} with the same signatures yields a witness that verifies under STANDARD (scriptSig={} witness=[{}]), but finalize_inp{}_mut fails: {} (tx version {}, nLockTime {}, nSequence {:#x})",
+                        k, ip.case.desc, if mall { "_mall" } else { "" }, hex(ss.as_bytes()), w.iter().map(|x| hex(x)).collect::<Vec<_>>().join(","), if mall { "_mall" } else { "" }, e,
+                        s.tx.version.0, s.tx.lock_time.to_consensus_u32(), s.tx.input[k].sequence.0
+                    ),
+                ),
+                Err(_) => rep.count("psbt: finalizer panicked (C11's business)"),
+            }
+        }
+    }
+}
+
 pub fn search_cfg(tier: Tier) -> SearchCfg {
     match tier {
         Tier::Quick => SearchCfg { max_steps: 200_000, max_vars: 40, max_results: 4 },
@@ -171,6 +249,9 @@ pub fn run(cfg: &RunCfg, rep: &mut Report) {
             },
         );
         let _ = bitcoin::Amount::ZERO;
+        if i % 2 == 0 {
+            psbt_flow(cfg, rep, &world, i);
+        }
     }
     if rep.samples.is_empty() {
         rep.sample("(see counters)".into());
